@@ -422,6 +422,42 @@ func SchemaMutations() []SchemaMutation {
 			}
 			return n, true
 		}},
+		{"interface-arg-nullability-tightened", func(r *rand.Rand, s *model.Schema) (string, bool) {
+			// the same named type with a tighter wrapper (Int -> Int!, [T] -> [T!], [[T]]! -> [[T!]]!): argument types are
+			// invariant, a narrower one is as wrong as another type
+			o, _, fo, fi := implementer(r, s, true)
+			if o == nil {
+				return "", false
+			}
+			n := fi.Args[r.Intn(len(fi.Args))].Name
+			a := fo.Arg(n)
+			if a == nil {
+				return "", false
+			}
+			var tighten func(t *model.TypeRef) (*model.TypeRef, bool)
+			tighten = func(t *model.TypeRef) (*model.TypeRef, bool) {
+				switch {
+				case t.NonNull:
+					if !t.Of.List {
+						return t, false // already as tight as it gets
+					}
+					e, ok := tighten(t.Of.Of)
+					return model.NonNullOf(model.ListOf(e)), ok
+				case t.List:
+					if e, ok := tighten(t.Of); ok && r.Intn(2) == 0 {
+						return model.ListOf(e), true
+					}
+					return model.NonNullOf(t), true
+				}
+				return model.NonNullOf(t), true
+			}
+			nt, ok := tighten(a.Type)
+			if !ok || nt.String() == a.Type.String() {
+				return "", false
+			}
+			a.Type = nt
+			return n, true
+		}},
 		{"interface-extra-required-arg", func(r *rand.Rand, s *model.Schema) (string, bool) {
 			o, _, fo, _ := implementer(r, s, false)
 			if o == nil {
